@@ -13,7 +13,7 @@ from __future__ import annotations
 import ast
 
 from ..model import AnchorError, norm, walk_no_nested
-from ..util import cfg_of, call_attr
+from ..util import cfg_of, call_attr, canon_text
 from ..cfg import facts_at
 
 EXPLANATION = __doc__
@@ -60,7 +60,8 @@ def run(ctx) -> None:
         ctx.ok("R35a", inst)
     else:
         ctx.fail("R35a", f, p[-2].ast if len(p) > 1 and p[-2].ast is not None else lp.ast,
-                 "aggregate_with: loop path drops the entry via " + (p[-2].text()[:100] if len(p) > 1 else "?"),
+                 "aggregate_with: loop path drops the entry via " + (
+                     canon_text(p[-2].ast, f)[:100] if len(p) > 1 and p[-2].ast is not None else "?"),
                  "an error-log entry with the same message and severity but an earlier time than the latest entry is neither "
                  "appended nor counted: the entry is lost", p)
     # R35b
@@ -100,10 +101,12 @@ def run(ctx) -> None:
     apps = [n for n in g.nodes if n.kind == "stmt" and any(call_attr(c) == "append" and "entries" in norm(c.func) for c in n.calls())]
     for n in apps:
         arg0 = [c for c in n.calls() if call_attr(c) == "append"][0].args[0]
-        lat = [x for x in g.nodes if x.kind == "stmt" and isinstance(x.ast, ast.Assign) and norm(x.ast.targets[0]) == "latest"
+        # `latest` by role: the local whose occurrences are incremented on a merge
+        LAT = next((norm(i.ast.target.value) for i in incs if isinstance(i.ast.target.value, ast.Name)), None)
+        lat = [x for x in g.nodes if x.kind == "stmt" and isinstance(x.ast, ast.Assign) and norm(x.ast.targets[0]) == LAT
                and g.dominates(x, n) and lp.id in g.search([x.id], lambda y: False, collect=True)]
         inst = "aggregate_with: appended entry becomes `latest`"
-        if norm(arg0) == "latest" and lat:
+        if LAT is not None and norm(arg0) == LAT and lat:
             ctx.ok("R35b", inst)
         else:
             ctx.fail("R35b", f, n.ast, inst, "the next repeat would be compared with a stale `latest` entry")
